@@ -259,6 +259,32 @@ def subprocess_replay(pid: str, harness: str, cex: dict):
         if rep2:
             cex["values"] = vals          # the replay file must carry the valuation that reproduced
             return True, "(reproduced on a perturbed valuation) " + out2
+    # boundary valuations per field kind (sign bit / top bit of the field set, all ones): code that reads raw bytes with the wrong
+    # signedness or width agrees with the real layout on every small value
+    def _width(name):
+        n = name.lower()
+        if "app_id" in n:
+            return 16, False
+        if "regidx" in n:
+            return 4, False
+        if "int32" in n or "addr" in n:
+            return 32, True
+        if "imm" in n or "ver" in n:
+            return 8, False
+        return None, False
+    for mode in ("top", "ones", "mixed"):
+        vals = {}
+        for k, v in cex.get("values", {}).items():
+            w, signed = _width(k)
+            if w is None or not isinstance(v, int) or isinstance(v, bool):
+                vals[k] = v
+                continue
+            u = (1 << (w - 1)) | (v & ((1 << (w - 1)) - 1)) if mode == "top" else (1 << w) - 1 if mode == "ones" else ((0xA5C3A5C3 >> (32 - w)) | (1 << (w - 1))) & ((1 << w) - 1)
+            vals[k] = u - (1 << w) if signed and u >= 1 << (w - 1) else u
+        rep2, out2 = _subprocess_replay_once(pid, harness, dict(cex, values=vals))
+        if rep2:
+            cex["values"] = vals
+            return True, "(reproduced on a boundary valuation) " + out2
     return rep, out
 
 
